@@ -110,7 +110,7 @@ def selftest(ck, trace_path):
 def run(ck):
     quick = ck.tier == "quick"
     ck.cov["rule"] = ("(1) TaskTree.tla: monitor = statement on every chronological history up to MaxLen events (exhaustive) and on random longer "
-                      "ones (simulation), rule reachability controls. (2) seeded assemblies (kinds rotate: ideal, wb, wt, l1l2, vm, rob (reorder buffer over a cache over slow memory: answers overtake each other), dram, banked, ...; the requester sometimes stops retrieving for a while (full Top port); "
+                      "ones (simulation), rule reachability controls. (2) seeded assemblies (kinds rotate: ideal, wb, wt, l1l2, vm, rob (reorder buffer over a cache over slow memory: answers overtake each other), dram, banked, ..., xlat (address translator over a slow TLB / MMU with one-message ports and bursts to many pages: back-pressured Translation and Bottom ports); the requester sometimes stops retrieving for a while (full Top port); "
                       "control modes rotate: reset, none, soft, reset, mixed) and networks run on the serial engine with a recording tracer on every "
                       "component and buffer tracers on every port; TLC runs the monitor over each stream. Counted per run; non-trivial = a run at rest "
                       "with at least 3 task kinds and 200 events.")
@@ -119,7 +119,7 @@ def run(ck):
                        "the requester is the harness's own component; it emits no tasks of its own (buffer tasks at its ports come from the library's hooks)"]
     if not os.environ.get("VERIF_SKIP_MODEL"):   # development aid (sensitivity runs): the model part does not depend on /repo
         model(ck)
-    stacks, nets, ops, msgs, per = (12, 2, 32, 24, 4) if quick else (48, 8, 110, 60, 6)
+    stacks, nets, ops, msgs, per = (13, 2, 30, 24, 5) if quick else (52, 8, 110, 60, 6)
     binary = ck.binary("nettrace")
     d = core.scratch("c32-")
     traces, outs = [], []
